@@ -53,7 +53,7 @@ static size_t hashmap_table_min_size_calc(size_t num_entries);
 static size_t hashmap_calc_index(const m_map_t *m, const char *key);
 static size_t hashmap_hash_string(const char *key);
 static int hashmap_rehash(m_map_t *m);
-static int hashmap_put(m_map_t *m, const char *key, void *value);
+static int hashmap_put(m_map_t *m, const char *key, void *value, bool *key_stored);
 static void clear_elem(m_map_t *m, map_elem *entry);
 
 /*
@@ -155,7 +155,7 @@ revert:
     return -ENOMEM;
 }
 
-static int hashmap_put(m_map_t *m, const char *key, void *value) {
+static int hashmap_put(m_map_t *m, const char *key, void *value, bool *key_stored) {
     M_PARAM_ASSERT(key);
     
     int ret;
@@ -197,6 +197,7 @@ static int hashmap_put(m_map_t *m, const char *key, void *value) {
         }
     }  else {
         entry->key = key;
+        *key_stored = true;
         m->length++;
     }
 
@@ -346,7 +347,15 @@ _public_ int m_map_put(m_map_t *m, const char *key, void *value) {
     M_PARAM_ASSERT(value);
     
     /* Find a place to put our value */
-    return hashmap_put(m, m->flags & M_MAP_KEY_DUP ? mem_strdup(key) : key, value);
+    const bool dupped = m->flags & M_MAP_KEY_DUP;
+    const char *k = dupped ? mem_strdup(key) : key;
+    bool key_stored = false;
+    int ret = hashmap_put(m, k, value, &key_stored);
+    if (dupped && !key_stored) {
+        /* Key copy was not stored (update of existing entry, or failure): do not leak it */
+        memhook._free((void *)k);
+    }
+    return ret;
 }
 
 /*
